@@ -297,30 +297,35 @@ Definition events_of (k : key) (evs : list (key * ev)) : list ev :=
 (* Seeded byte streams for the correspondence check (same generator as e2e/puppet.py and the
    harness): xorshift64-star *)
 
-Definition M64c : N := 18446744073709551616.
+Definition MASK64 : N := 18446744073709551615.
 
 Definition xs_next (x : N) : N :=
   let x := N.lxor x (N.shiftr x 12) in
-  let x := N.lxor x (N.shiftl x 25 mod M64c) in
+  let x := N.lxor x (N.land (N.shiftl x 25) MASK64) in
   N.lxor x (N.shiftr x 27).
 
 Fixpoint le_bytes (k : nat) (v : N) : bytes :=
   match k with
   | O => []
-  | S k' => (v mod 256) :: le_bytes k' (v / 256)
+  | S k' => N.land v 255 :: le_bytes k' (N.shiftr v 8)
   end.
 
 Fixpoint prng_words (k : nat) (x : N) : bytes :=
   match k with
   | O => []
   | S k' => let x' := xs_next x in
-            le_bytes 8 ((x' * 2685821657736338717) mod M64c) ++ prng_words k' x'
+            le_bytes 8 (N.land (x' * 2685821657736338717) MASK64) ++ prng_words k' x'
   end.
 
 Definition prng_bytes (seed size : N) : bytes :=
-  let x0 := (seed * 2654435761 + 88172645463325252) mod M64c in
+  let x0 := N.land (seed * 2654435761 + 88172645463325252) MASK64 in
   let x0 := if x0 =? 0 then 1 else x0 in
   takeN size (prng_words (N.to_nat ((size + 7) / 8)) x0).
+
+(* order-sensitive checksum of a byte string, cheap enough for 64 KiB inside Coq: (sum of the
+   bytes, sum of the running sums); the harness computes the same *)
+Definition wsum (l : bytes) : N * N :=
+  fold_left (fun (acc : N * N) (b : N) => (fst acc + b, snd acc + fst acc + b)) l (0, 0).
 
 (* observation used by the correspondence check: after every event
    (|stdout acc|, stdout done, |stderr acc|, stderr done) *)
